@@ -19,6 +19,7 @@ import KcpVerif.Lemmas.SysDrainOrder
 import KcpVerif.Lemmas.SysDrainHead4
 import KcpVerif.Lemmas.SysDrainAll
 import KcpVerif.Lemmas.SysDrainFull
+import KcpVerif.Lemmas.SysDrainFull2
 /-! C02 — eventual delivery: a healed network always drains the backlog. -/
 namespace KcpVerif.Props
 open KcpVerif KcpVerif.Gen KcpVerif.Kcp KcpVerif.Live
@@ -1185,8 +1186,8 @@ One stage (`SysC.stage_full`, `fullStage` ms) makes `snd_una` advance whenever s
 Run hypotheses, all checks on single states (`SysC.FullHyp`; Boolean form `SysC.runFullChk`): `Small`;
 `QB` — B's receive queue is not full and `rcv_wnd < 65536` in EVERY state (stronger than the reader
 condition `QOk` of `C02_drain_partial`: the window must exceed what arrives between two reads);
-`TmrOk Rmax` as before; `CfgA` — `0 < snd_wnd < 2^31`.  On the start state: `FreshBa`
-(e.g. nothing on its way to A). -/
+`TmrOk Rmax` as before; `CfgA` — `0 < snd_wnd < 2^31`.  Nothing is asked of the start state beyond
+reachability. -/
 
 open KcpVerif.Sys KcpVerif.SysC in
 /-- **one stage of the general drain** -/
@@ -1199,16 +1200,20 @@ theorem C02_drain_stage_general {p : Par} {IA IB Rmax : Nat} {s : State} (hi : I
 open KcpVerif.Sys KcpVerif.SysC in
 /-- **`C02_drain`, any send queue, congestion control on or off**: two fresh endpoints, ANY history `pre` of
 writes, reads, events and network faults; from the state it leaves the writer stops, the links are fair
-and B's receive queue is never full.  Once the clock has advanced by `WaitSnd · (fullStage + 1)` ms —
+and B's receive queue is never full.  Once the clock has advanced by
+`D + 1 + WaitSnd · (fullStage + 1)` ms —
 `fullStage = (IKCP_PROBE_LIMIT + 2·IA + 2·D + IB + 1) + (2·IA + 1) + (Rmax + IA + 2·D + IB)` — `WaitSnd = 0`
-and the receiver has handed every numbered segment to the reader's queue. -/
+and the receiver has handed every numbered segment to the reader's queue.  The first `D + 1` ms let
+whatever was on its way to A at the start (possibly with `wnd = 0`) arrive: every datagram arrives
+within `D` of its emission (`SysC.ArrOk`, kept by every event and every non-forging fault) and the clock
+cannot pass the arrival time of an undelivered datagram (`SysC.OF`, Lemmas/SysDrainFull2.lean). -/
 theorem C02_drain_general_partial (A B : Kcp) (D t0 : Nat) (ndA ndB : Bool) (hinit : ConsInit A B)
     (hpw : A.probe_wait = 0) (hIA : A.interval.toNat < 2 ^ 29) (pre : List NetEv)
     (hpre : NetNoWrap A.snd_nxt (Sys.init A B D t0 ndA ndB) pre) (Rmax : Nat) (hR : Rmax + A.interval.toNat < 2 ^ 31)
-    (hfresh : FreshBa (netRun (Sys.init A B D t0 ndA ndB) pre))
     (evs : List Ev) (hns : ∀ ev ∈ evs, isSend ev = false)
     (hr : RunP (FullHyp ⟨A.snd_nxt, A.conv, 0, 0, 0⟩ Rmax A.interval.toNat) (netRun (Sys.init A B D t0 ndA ndB) pre) evs)
-    (hnow : (netRun (Sys.init A B D t0 ndA ndB) pre).now + (netRun (Sys.init A B D t0 ndA ndB) pre).A.waitSnd *
+    (hnow : (netRun (Sys.init A B D t0 ndA ndB) pre).now + (netRun (Sys.init A B D t0 ndA ndB) pre).D + 1 +
+      (netRun (Sys.init A B D t0 ndA ndB) pre).A.waitSnd *
       (fullStage Rmax A.interval.toNat B.interval.toNat (netRun (Sys.init A B D t0 ndA ndB) pre).D + 1) ≤
       (Sys.run (netRun (Sys.init A B D t0 ndA ndB) pre) evs).now) :
     (Sys.run (netRun (Sys.init A B D t0 ndA ndB) pre) evs).A.waitSnd = 0 ∧
@@ -1216,16 +1221,15 @@ theorem C02_drain_general_partial (A B : Kcp) (D t0 : Nat) (ndA ndB : Bool) (hin
       (Sys.run (netRun (Sys.init A B D t0 ndA ndB) pre) evs).A.snd_nxt := by
   obtain ⟨hi, hpi⟩ := inv_pinv_netRun (by omega) pre _ (inv_init A B D t0 ndA ndB hinit)
     (pinv_init A B D t0 ndA ndB hpw) hpre
-  have hi3 : Inv3 ⟨A.snd_nxt, A.conv, 0, 0, 0⟩ A.interval.toNat B.interval.toNat (netRun (Sys.init A B D t0 ndA ndB) pre) :=
-    ⟨hi, hpi, hfresh⟩
-  have hw := drain_full_all hIA hR _ _ hi3 (Nat.le_refl _) evs hns hr hnow
+  have ha := arrOk_netRun pre _ (arrOk_init A B D t0 ndA ndB)
+  have hw := drain_full_any hIA hR hi hpi ha evs hns hr hnow
   refine ⟨hw, ?_⟩
-  have hi' := inv3_run (by omega) evs _ hi3 hr
+  have hi' := inv_run evs _ hi (full_noWrap evs _ hr)
   have hq' := (RunP.last evs _ hr).2.1.1
-  obtain ⟨g1, g2, hc'⟩ := hi'.inv.cons
+  obtain ⟨g1, g2, hc'⟩ := hi'.cons
   unfold Kcp.waitSnd at hw
   generalize Sys.run (netRun (Sys.init A B D t0 ndA ndB) pre) evs = s' at *
-  have hnb : o A.snd_nxt s'.A.snd_una ≤ o A.snd_nxt s'.B.rcv_nxt := not_behind hc' hi'.inv.side.srt hi'.inv.side.fix hq'
+  have hnb : o A.snd_nxt s'.A.snd_una ≤ o A.snd_nxt s'.B.rcv_nxt := not_behind hc' hi'.side.srt hi'.side.fix hq'
   have hcon : o A.snd_nxt s'.A.snd_una + s'.A.snd_buf.length = o A.snd_nxt s'.A.snd_nxt := hc'.acon.2
   have hbub : o A.snd_nxt s'.B.rcv_nxt ≤ o A.snd_nxt s'.A.snd_nxt := hc'.bub
   exact o_inj A.snd_nxt _ _ (by omega)
